@@ -650,7 +650,12 @@ func runSigCase(c SigCase) SigResult {
 		} else {
 			err = keyed.Mutate(owner.Repo, func(m *identity.Mutator) {
 				m.Name = fmt.Sprintf("keyed author v%d", k+1)
-				m.Keys = keys
+				if k%2 == 1 {
+					// the key list the mutator hands out is edited in place (overwrite, truncate, append)
+					m.Keys = append(m.Keys[:0], keys...)
+				} else {
+					m.Keys = keys
+				}
 			})
 		}
 		if err == nil {
